@@ -296,6 +296,13 @@ func (rt *sessRT) reader(conn net.Conn, dr *dirRT, sc *spec.Script, rd int, isCl
 	if think < 1 {
 		think = 1
 	}
+	if sc.ReadDelayUs > 0 {
+		select {
+		case <-time.After(time.Duration(sc.ReadDelayUs) * time.Microsecond):
+			w.fault("app-slow-reader")
+		case <-rt.abort:
+		}
+	}
 	for i := 0; ; i++ {
 		bs := 32768
 		if len(sc.ReadBufs) > 0 {
